@@ -72,7 +72,8 @@ def c16_extra(cases, verdicts):
 
 
 PROP = dict(
-    proof_modules=["VrpProofs.C16"], model_modules=["VrpModel.C16"], drv="drv_c16", bin="c16",
+    proof_modules=["VrpProofs.C16", "VrpProofs.C16.Basic", "VrpProofs.C16.Search", "VrpProofs.C16.Aware", "VrpProofs.C16.Spec",
+                   "VrpProofs.C16.Builder", "VrpProofs.C16.Provider", "VrpProofs.C16.Reader"], model_modules=["VrpModel.C16"], drv="drv_c16", bin="c16",
     compare=c16_compare, nontrivial=c16_nontrivial, extra_evidence=c16_extra,
     rule="core/prag: a rejected set (one inconsistency class per case) or an accepted set with at least two matrices, "
          "non-constant entries and at least two queries (asymmetric, multi-profile and/or multi-timestamp); simple: more "
